@@ -385,6 +385,10 @@ func shapeOf(n data.GetValue, handled bool) (hasNode bool, fields []string) {
 					}
 				}
 			case reflect.Slice:
+				if unnamedElem(x.Type()) {
+					k = "u" // emitSlice prints "[]" + "" + "{": not Go
+					break
+				}
 				for j := 0; j < x.Len() && x.CanInterface(); j++ {
 					el := x.Index(j)
 					if el.Kind() == reflect.Interface {
@@ -401,12 +405,38 @@ func shapeOf(n data.GetValue, handled bool) (hasNode bool, fields []string) {
 			case reflect.Map:
 				if x.Type().Key().Kind() != reflect.String {
 					k = "b"
+				} else if unnamedElem(x.Type()) {
+					k = "u"
 				}
 			}
 		}
 		fields = append(fields, f.Name+":"+k)
 	}
 	return
+}
+
+var (
+	variableT = reflect.TypeOf((*data.Variable)(nil)).Elem()
+	methodT   = reflect.TypeOf((*data.Method)(nil)).Elem()
+)
+
+// unnamedElem: emitSlice / emitMap print the element type of t as package + Name(); a pointer,
+// slice, map, func or `any` element type has no name (the three interface cases emitSlice writes
+// by hand apart, and []byte which is printed as a string).
+func unnamedElem(t reflect.Type) bool {
+	e := t.Elem()
+	if e.Name() != "" {
+		return false
+	}
+	if t.Kind() == reflect.Slice {
+		if e.Kind() == reflect.Uint8 {
+			return false
+		}
+		if e.Kind() == reflect.Interface && e.NumMethod() > 0 && (e.Implements(getValueT) || e.Implements(variableT) || e.Implements(methodT)) {
+			return false
+		}
+	}
+	return true
 }
 
 func sameSet(a, b []string) bool {
@@ -436,6 +466,11 @@ func agree(model string, real realEmit, typ string) bool {
 			}
 			return sameSet(ws, real.Fields)
 		}
+		return false
+	case model == "error malformed":
+		// the Generator returns text that is not Go; the command fails in format.Source
+		return real.Kind == "error" && strings.HasPrefix(real.Msg, "generated text does not parse")
+	case real.Kind == "error" && strings.HasPrefix(real.Msg, "generated text does not parse"):
 		return false
 	case strings.HasPrefix(model, "error unexported "):
 		// Emit replaces the struct-literal error by its generic EmitError for the node
@@ -496,6 +531,10 @@ func structSources(c *vh.Ctx) []string {
 		"<?php\n$r = 1..5;\n$o = new Foo { a: 1 };\n$a = $b instanceof Foo;\n$x = $y like Foo;\necho Foo::class, $o::class;\ninclude 'x.php';\nconst QQ = 1;\n[$p, $q] = [1, 2];\n$s = `ls`;\n$z = $a <=> $b; $w = $a !== $b;\nswitch ($a) { case 1: break; default: }\n$n = new class { public $v = 1; };\n",
 		"<?php\nnamespace Probe\\Ns;\nuse Other\\Thing;\nabstract class PA { abstract function m(); static function sm() { return static::$x; } }\ninterface PI { function q(); }\nfunction pf(int ...$xs): ?string { return null; }\n$v = PA::sm(); $w = PA::$x; $u = parent::foo(); $t = self::K;\n",
 	)
+	// `$a, $b = e` inside a for header is this parser's multi-assignment: node.BinaryAssignVariableList
+	// holding a node.VariableList (a struct only emitVariableList writes: its []*VariableExpression has
+	// no element type name for the reflective path)
+	srcs = append(srcs, "<?php\n$m1 = 1;\nfor ($m0 = $m1, $m2 = 0; $m2 < 1; $m2++) { }\necho $m0;\n")
 	return srcs
 }
 
@@ -525,6 +564,41 @@ func structStream(c *vh.Ctx, m *vh.Model) {
 			}
 		}
 	}
+	// the operand programs in full (operand.go): which node kinds do the probes reach? Not assumed:
+	// parsed by the real parser and held against the regenerated node table (driver command `kinds`)
+	opInst := map[string]data.GetValue{}
+	{
+		r := vh.NewRand(c.Seed*7919 + 17)
+		for i := range opForms {
+			p := opProg(&opForms[i], r, fmt.Sprintf("k%d", i), "feat", true)
+			prog, _ := parseSnippet(p.Src, filepath.Join(pdir, fmt.Sprintf("k%d.php", i)))
+			if prog == nil {
+				c.Hit("op:form-not-parsed")
+				continue
+			}
+			collect(reflect.ValueOf(prog), map[uintptr]bool{}, opInst, 0)
+		}
+		for n, v := range opInst {
+			if _, ok := inst[n]; !ok {
+				inst[n] = v
+				instSrc[n] = "(operand program)"
+			}
+		}
+	}
+	if m != nil {
+		if ans, err := m.Ask("kinds"); err == nil {
+			var unreached []string
+			for _, k := range strings.Fields(ans) {
+				if _, ok := opInst[k]; ok {
+					c.Hit("op:kind-reached")
+				} else {
+					c.Hit("op:kind-unreached")
+					unreached = append(unreached, strings.TrimPrefix(k, "node."))
+				}
+			}
+			c.Note("operand probes reach %d of the %d node kinds of the regenerated table; not reached (declarations, statements without operand, run-time-only nodes): %s", c.Res.Histogram["op:kind-reached"], c.Res.Histogram["op:kind-reached"]+c.Res.Histogram["op:kind-unreached"], head(strings.Join(unreached, " "), 1800))
+		}
+	}
 	var names []string
 	for n := range inst {
 		names = append(names, n)
@@ -540,6 +614,7 @@ func structStream(c *vh.Ctx, m *vh.Model) {
 		structCase(c, m, name, inst[name], instSrc[name])
 	}
 	orderStream(c, m)
+	fuseStream(c, m)
 	if os.Getenv("C16_NOPROBE") == "" { // development aid: see only what the differential run reports
 		scalarStream(c, m, inst, nil)
 	}
